@@ -223,6 +223,63 @@ pub fn malformed(_cex: &Value) -> Result<String, String> {
       }
     }
   }
+  // type metadata of every shape (schema embedded / referenced / absent) x (extends present / absent / unresolvable / cyclic) through
+  // the resolver-driven validation: an error or Ok, not a panic
+  {
+    use async_trait::async_trait;
+    use identity_credential::sd_jwt_vc::metadata::TypeMetadata;
+    use identity_credential::sd_jwt_vc::resolver::{Error as RErr, Resolver};
+    struct Types;
+    #[async_trait]
+    impl Resolver<Url, serde_json::Value> for Types {
+      async fn resolve(&self, input: &Url) -> Result<serde_json::Value, RErr> {
+        match input.as_str() {
+          "https://example.com/base" => Ok(serde_json::json!({"name": "base", "schema": {"type": "object", "required": ["name"]}})),
+          "https://example.com/schema" => Ok(serde_json::json!({"type": "object"})),
+          "https://example.com/loop" => Ok(serde_json::json!({"name": "loop", "extends": "https://example.com/loop"})),
+          "https://example.com/bare" => Ok(serde_json::json!({"name": "bare"})),
+          "https://example.com/not-an-object" => Ok(serde_json::json!([1, 2])),
+          _ => Err(RErr::NotFound(input.to_string())),
+        }
+      }
+    }
+    let schemas = [None, Some(serde_json::json!({"schema": {"type": "object"}})), Some(serde_json::json!({"schema_uri": "https://example.com/schema"})), Some(serde_json::json!({"schema_uri": "https://example.com/unknown"}))];
+    let extends = [None, Some("https://example.com/base"), Some("https://example.com/unknown"), Some("https://example.com/loop"), Some("https://example.com/bare"), Some("https://example.com/not-an-object")];
+    for sc in &schemas {
+      for ex in &extends {
+        let mut v = serde_json::json!({"name": "t"});
+        if let Some(serde_json::Value::Object(o)) = sc {
+          for (k, val) in o {
+            v[k] = val.clone();
+          }
+        }
+        if let Some(e) = ex {
+          v["extends"] = serde_json::json!(e);
+        }
+        let Ok(meta) = serde_json::from_value::<TypeMetadata>(v.clone()) else {
+          continue;
+        };
+        let text = v.to_string();
+        probe("TypeMetadata::validate_credential_with_resolver", text.as_bytes(), &move |_p: &[u8]| {
+          let cred = serde_json::json!({"name": "John", "age": 42});
+          let _ = crate::storage_block_on(meta.validate_credential_with_resolver(&cred, &Types));
+          let _ = meta.validate_credential(&cred);
+        });
+      }
+    }
+  }
+  // serialisers of values the deserialiser accepts: credentials with zero, one (as an array) or several subjects
+  for subject in [serde_json::json!([]), serde_json::json!([{"id": "did:example:s"}]), serde_json::json!([{"id": "did:example:s"}, {"id": "did:example:t"}]), serde_json::json!({"x": 1})] {
+    let v = serde_json::json!({
+      "@context": ["https://www.w3.org/2018/credentials/v1"], "type": ["VerifiableCredential"], "issuer": "did:example:i",
+      "issuanceDate": "2020-01-01T00:00:00Z", "credentialSubject": subject
+    });
+    if let Ok(c) = identity_credential::credential::Credential::<Object>::from_json_value(v.clone()) {
+      probe("Credential::serialize_jwt", v.to_string().as_bytes(), &move |_p: &[u8]| {
+        let _ = c.serialize_jwt(None);
+      });
+    }
+  }
   // JOSE
   let k = crate::jws::key("keyA", None);
   for ser in [crate::jws::Ser::Compact, crate::jws::Ser::Flattened, crate::jws::Ser::General] {
